@@ -821,13 +821,22 @@ def _storage_problems(glyphs, overrides, result):
     return bad
 
 
-@contract("nanoemoji.glyph_reuse.GlyphReuseCache.try_reuse", props=["C19"])
+def _k10_witness():
+    vb = (0, 0, 24, 24)
+    pts = [(9.30707, 6.25855), (8.29076, 8.13726), (5.45235, 8.33689), (3.42643, 5.35735), (4.58806, 3.41625), (8.79886, 3.30082)]
+    copy_ = [(round(x + 3.1505, 5), round(y + 4.5359, 5)) for x, y in pts]
+    g = e2e.GlyphSpec(vb, [e2e.Shape(pts, e2e.Solid((200, 10, 10)), 1.0), e2e.Shape(copy_, e2e.Solid((10, 10, 200)), 1.0)], (0xE000,))
+    return {"glyphs": [g], "overrides": dict(color_format="glyf_colr_1", output_file="out.ttf", reuse_tolerance=0.1)}
+
+
+@contract("nanoemoji.write_font._generate_color_font", props=["C19"])
 class e2e_congruent_copies:
     bounded_only = True
     gen = _gen_copies
     native_call = _build
     n_quick = 40
     n_thorough = 600
+    known_witnesses = {"K10": _k10_witness}
     ensures = {
         # copies that differ by translation, rotation or reflection are stored once when reuse
         # is on, and separately only when it is disabled
